@@ -325,6 +325,19 @@ def check_numpy(ctx, rng, data, rate, width, channels):
                 ctx.violation("numpy-value-wrong", {"case": case, "channel": c, "sample": i, "got": float(arr[c][i]), "expected": chans[c][i]})
                 return
     ctx.count("numpy_values_checked", channels * n)
+    # a second export after the caller modified the first array in place (e.g. normalised it) must show the region's audio again
+    if n:
+        try:
+            arr += 1
+            arr *= 0.5
+        except Exception:
+            pass  # a read-only export is fine too
+        again = reg.numpy()
+        ctx.count("numpy_reexports_checked")
+        if bytes(reg) != data:
+            ctx.violation("numpy-export-lets-the-region-be-modified", {"case": case})
+        elif any(again[c][i] != chans[c][i] for c in range(channels) for i in range(n)):
+            ctx.violation("numpy-second-export-returns-stale-or-modified-values", {"case": case})
 
 
 def run_shard(ctx, upto=None):
@@ -368,5 +381,5 @@ def inconclusive(merged, tier):
     c = merged["counters"]
     need = ["writes_to_file", "writes_save", "writes_wav", "writes_raw", "reads_load", "reads_from_file", "reads_lazy", "reads_eager",
             "roundtrips", "template_saves", "exists_ok_false_checks", "overwrites_ok", "load_slices", "load_slices_with_empty_result",
-            "load_slices_skip_beyond_end", "numpy_exports", "numpy_values_checked"]
+            "load_slices_skip_beyond_end", "numpy_exports", "numpy_values_checked", "numpy_reexports_checked"]
     return [f"monitor never observed {k}" for k in need if c.get(k, 0) == 0]
